@@ -28,7 +28,7 @@ How to run things (the sandbox has no network):
 DELIVERABLES, all in the directory /tmp/seed_out/{name} (create it):
 1. patch.diff  - output of `git -C {wt} diff` for your change (library code only).
 2. demo.py     - a self-contained script, run as `PYTHONPATH=<tree>/Lib /venv/bin/python demo.py`, that exits 0 and prints PASS on the unchanged library and exits 1 and prints FAIL on the changed one, by observing the property's behaviour (not by inspecting source text). It must not depend on your worktree path (use tests data via a path relative to an environment variable UFO2FT_TREE, defaulting to /repo, e.g. os.path.join(os.environ.get("UFO2FT_TREE","/repo"),"tests","data",...)).
-3. notes.md    - 5-15 lines: what you changed and why it looks plausible, what exactly is needed for the breakage to manifest, and the commands you ran with their results (suite result with the change; demo result with and without the change - use `git -C {wt} stash` to test without).
+3. notes.md    - 5-15 lines: what you changed and why it looks plausible, what exactly is needed for the breakage to manifest, and the commands you ran with their results (suite result with the change; demo result with and without the change - do NOT use `git stash` (the stash is shared by all worktrees of the repository and other people work in sibling worktrees): to test without the change run `git -C {wt} diff > /tmp/seed_out/{name}/patch.diff && git -C {wt} apply -R /tmp/seed_out/{name}/patch.diff`, run the demo, then `git -C {wt} apply /tmp/seed_out/{name}/patch.diff` to put it back).
 
 Before finishing, verify yourself: (a) full suite passes WITH the change (1148 passed), (b) demo.py fails WITH the change and passes WITHOUT it. Leave the worktree with the change applied. If your first idea gets caught by the test suite, try another. Report back a short summary (what you changed, in which file/function, and what is needed to trigger it).
 """
